@@ -122,7 +122,7 @@ def check_trim(rng, w, kind):
     if rng.random() < 0.3:
         samples = np.stack([np.arange(n), -np.arange(n)], axis=1).astype(float)
     try:
-        s_out, w_out = trim_weights(samples, w.copy(), ess=frac, bins=bins)
+        s_out, w_out = trim_weights(samples, w.copy(), ess=frac, bins=bins)      # (normalises its weight argument in place: a copy is handed over)
     except Exception as e:
         return [(f"trim-exception-{type(e).__name__}", f"trim_weights raised {e} (n={n}, ess={frac}, bins={bins}, kind={kind})")], frac, bins
     w_in = w.copy()
@@ -192,6 +192,13 @@ def check_volume(rng):
             w[keep] = rng.dirichlet(np.ones(len(keep)))
     with np.errstate(all="ignore"):
         v = float(volume_variation(x, None if w is None else w.copy()))
+        # the same samples in column-major layout and called twice on one array: the value is a function of the samples
+        xf = np.asfortranarray(x).copy(order="F")
+        vf1 = float(volume_variation(xf, None if w is None else w.copy()))
+        vf2 = float(volume_variation(xf, None if w is None else w.copy()))
+        plain = not ("rank" in kind or "+" in kind or "|" in kind)      # (elsewhere the rank decision is a matter of rounding, i.e. of summation order)
+        if np.isfinite(v) and ((plain and abs(vf1 - v) > 1e-9 * max(abs(v), 1e-300)) or vf2 != vf1):
+            bad.append(("volume-layout", f"{kind} pool: {v!r} for row-major samples, {vf1!r} / {vf2!r} for two calls on one column-major array"))
     desc = dict(d=d, n=n, kind=kind, weighted=w is not None)
     # multiplying the samples by a power of two is exact in floating point: every intermediate quantity (covariance, rank
     # decision, ridge, distances) scales exactly, so the metric must not move at all - on any pool, degenerate or not
@@ -203,6 +210,26 @@ def check_volume(rng):
                 bad.append(("volume-sample-scale", f"samples multiplied by 2**{kexp} ({kind} pool): {v!r} -> {vs!r}"))
                 break
         desc["pow2"] = 4
+        # single-precision sample arrays (values exactly representable), with and without weights, under per-axis power-of-two
+        # scalings (exact in either precision; condition number of the map up to 2**24)
+        if "+" not in kind and "rank" not in kind and d > 1:
+            x32 = x.astype(np.float32)
+            ex = rng.integers(-9, 10, d)            # condition number of the map <= 2**18 (the property goes up to 1e6)
+            y32 = (x32 * (2.0 ** ex).astype(np.float32)).astype(np.float32)
+            yy = y32.astype(float)
+            for ww_ in ([None] if w is None else [None, w]):
+                w64 = np.ones(n) / n if ww_ is None else ww_ / ww_.sum()
+                covy = (yy - w64 @ yy).T @ ((yy - w64 @ yy) * w64[:, None])
+                covx = (x32.astype(float) - w64 @ x32.astype(float)).T @ ((x32.astype(float) - w64 @ x32.astype(float)) * w64[:, None])
+                # (the arithmetic is double precision; both clouds must be comfortably full rank for the pair to be judged)
+                tol32 = max(1e-8, 1000 * np.finfo(float).eps * max(float(np.linalg.cond(covy)), float(np.linalg.cond(covx))))
+                with np.errstate(all="ignore"):
+                    a32 = float(volume_variation(x32, None if ww_ is None else ww_.copy()))
+                    b32 = float(volume_variation(y32, None if ww_ is None else ww_.copy()))
+                if tol32 <= 1e-3 and np.isfinite(a32) and not (abs(a32 - b32) <= tol32 * max(abs(a32), 1e-300)):
+                    bad.append(("volume-affine", f"float32 samples ({'no' if ww_ is None else 'with'} weights), axes scaled by 2**{ex.tolist()} (exact): {a32!r} -> {b32!r}"))
+                    break
+            desc["f32"] = 1
         # rigid motions of structurally degenerate pools: the ridge of the regularised branch is isotropic and proportional to
         # the trace, so rotations / reflections, translations and power-of-two scalings must leave the metric alone.  Judged
         # only when the rank decision is not a matter of rounding for either cloud.
@@ -329,6 +356,7 @@ def run():
                 ck.event("volume_variation case")
                 ck.event("volume_variation under exact power-of-two rescaling of the samples", vdesc.get("pow2", 0))
                 ck.event("degenerate pools under a rigid motion (rank decision robust for both clouds)", vdesc.get("rigid", 0))
+                ck.event("float32 sample arrays under exact per-axis power-of-two scalings", vdesc.get("f32", 0))
                 if "|outlier" in vdesc.get("kind", ""):
                     ck.event("pools with one sample > 1000 standard deviations away carrying 1e-9..1e-5 of the weight" + (" (affine pair judged)" if judged else ""))
                 if "+" in vdesc.get("kind", ""):
